@@ -584,17 +584,18 @@ def run(rep):
     for key, ms in groups.items():
         bits = sum(c02.INPUTS[i][0] for i in key)
         size = max(8, 120 >> max(0, bits - 6))
-        sel = ms if not rep.quick else ms[::9]
+        sel = ms if not rep.quick else ms[::4]
         for n, ch in enumerate(chunks(sel, size)):
             tasks.append(("stmt", (ch, "comb", ("flat", "child", "deep")[n % 3])))
-        sel = ms[::2] if not rep.quick else ms[::27]
+        sel = ms[::2] if not rep.quick else ms[::12]
         for n, ch in enumerate(chunks(sel, max(4, size // 3))):
             tasks.append(("stmt", (ch, "sync", ("deep", "flat", "child")[n % 3])))
     for name in (QUICK_SEQ if rep.quick else list(SEQ_DESIGNS)):
         tasks.append(("seq", (name, rep.pick(5, 10), rep.pick(700, 40000))))
     if only:
         tasks = [t for t in tasks if t[0] == only]
-    tasks = rotate(tasks, rep.seed)
+    # the joint-BFS jobs are the longest single tasks: start them first, the seed rotates the rest
+    tasks = [t for t in tasks if t[0] == "seq"] + rotate([t for t in tasks if t[0] != "seq"], rep.seed)
     for part in pmap(_dispatch, tasks, rep.procs):
         rep.merge(part)
     rep.setcov("rule", "programs = RTLIL documents converted from: expression batches (C01 term space), statement batches (C02 module-term space, flat "
